@@ -56,10 +56,10 @@ func main() {
 		},
 	)
 	if err != nil {
-		if *strict {
-			log.Fatal(err)
-		}
-		fmt.Fprintln(os.Stderr, "warning:", err)
+		// Every error from parse is fatal: the grammar could not be read or parsed, the
+		// destination could not be written, or (with -strict) the compiler had warnings.
+		// Without -strict the compiler's warnings are printed by Compile and are not errors.
+		log.Fatal(err)
 	}
 }
 
